@@ -1372,7 +1372,7 @@ const CONTROLS: &[&str] = &[
 const VALUES: &[&str] = &[
   "0", "1", "-1", "23", "24", "255", "18446744073709551615", "-18446744073709551616", "18446744073709551616", "99999999999999999999999999", "0x10", "0xFFFFFFFFFFFFFFFF", "0x10000000000000000",
   "0b101", "-0x1", "1.5", "-0.0", "1e3", "1e400", "1.0e-400", "0x1p4", "0x1.8p1", "-0x1p-2", "\"\"", "\"a\"", "\"a\\\"b\"", "\"\\u00e9\"", "\"\\u{1F600}\"", "\"\\ud800\"", "\"\\u{110000}\"", "\"line\\nbreak\"",
-  "h''", "h'00ff'", "h'0'", "h'zz'", "h'00 ff'", "'bytes'", "''", "b64''", "b64'aGVsbG8'", "b64'!!!'", "h\"00ff\"", "'it\\'s'",
+  "h''", "h'00ff'", "h'0'", "h'zz'", "h'00 ff'", "h'4342 ; trailing note'", "h'43 ;c\n42'", "b64'EjRWeA ;x'", "h';x'", "h'00\n11'", "h' 00'", "h'00 '", "b64'aGVs\n bG8'", "';not a comment'", "'bytes'", "''", "b64''", "b64'aGVsbG8'", "b64'!!!'", "h\"00ff\"", "'it\\'s'",
 ];
 
 pub fn rand_ident(r: &mut Rng, names: &[String]) -> String {
